@@ -98,8 +98,24 @@ def main():
     opcall = func_body(prov, r"result_type\s+operator\s*\(\s*\)\s*\(\s*\)")
     disc = func_body(prov, r"void\s+discard\s*\(")
 
+    def throws_direct(b):
+        # if (<the multi-stream flag>) throw std::runtime_error(...), with or without braces
+        return bool(re.search(r"if\s*\(\s*\w+\s*\)\s*\{?\s*throw\s+std::runtime_error", b))
+
     def throws(b):
-        return bool(re.search(r"if\s*\(\s*mutli_\s*\)\s*\{\s*throw\s+std::runtime_error", b))
+        if throws_direct(b):
+            return True
+        # or through a private helper of the class called by the body
+        for callee in set(re.findall(r"\b([A-Za-z_]\w*)\s*\(", b)):
+            m2 = re.search(r"\b%s\s*\([^)]*\)\s*(?:const\s*)?\{" % re.escape(callee), prov)
+            if m2:
+                i, depth = m2.end(), 1
+                while depth and i < len(prov):
+                    depth += {"{": 1, "}": -1}.get(prov[i], 0)
+                    i += 1
+                if throws_direct(prov[m2.end():i - 1]):
+                    return True
+        return False
     cfg = strip_comments(open(os.path.join(repo, "include/pops/config.hpp")).read())
     rs = func_body(cfg, r"void\s+read_seeds\s*\(\s*const\s+std::vector<unsigned>")
     names = re.findall(r"\"(\w+)\"", rs.split("};")[0])
